@@ -83,7 +83,9 @@ def check_templates(ctx, S):
             if bound is None:
                 bound = dict(zip(LISTS, [l[6:] for l in locs]))
             else:
-                ctx.expect(bound == dict(zip(LISTS, [l[6:] for l in locs])), "C13.K12.sibling", "match~named|same-lists", a.site, "both templates must be fed from the same four lists")
+                b2 = dict(zip(LISTS, [l[6:] for l in locs]))
+                same = bound["patterns"] == b2["patterns"] and bound["clauses"] == b2["clauses"] and {bound["vars"], bound["compounds"]} == {b2["vars"], b2["compounds"]}
+                ctx.expect(same, "C13.K12.sibling", "match~named|same-lists", a.site, "both templates must be fed from the same four lists")
     # per-clause template: the clause itself, cast only
     if ctx.expect(len(inner) == 1, R, "arm-clause|template", "macros/src/lib.rs", "expected one per-clause template in the arm loop, found %d" % len(inner)):
         a = inner[0]
